@@ -240,6 +240,10 @@ def spread(lc, m):
     out = []
     for k, a in enumerate(ang):
         R = [gamma.rotz, gamma.rotx, gamma.roty][k % 3](a) @ gamma.rotz(0.3 * k)
+        if k == 2:          # pitch exactly +90 degrees: the singular branch of the roll-pitch-yaw extraction
+            R = gamma.rotz(0.7) @ gamma.roty(math.pi / 2) @ gamma.rotx(0.4)
+        elif k == 3:        # middle Euler angle 0: the singular branch of the Euler extraction
+            R = gamma.rotz(0.5)
         t = np.array([1.0 + k, -2.0 * k, 0.5])
         if lc == "SO2":
             out.append(gamma.rotz(a)[:2, :2])
@@ -253,6 +257,15 @@ def spread(lc, m):
             out.append(T)
         elif lc == "UnitQuaternion":
             q = np.r_[math.cos(a / 2), math.sin(a / 2) * np.array([0.6, 0.0, 0.8])]
+            if k in (2, 3):     # the singular configurations above, as quaternions (product of axis quaternions)
+                def qm(p_, r_):
+                    return np.r_[p_[0] * r_[0] - np.dot(p_[1:], r_[1:]), p_[0] * r_[1:] + r_[0] * p_[1:] + np.cross(p_[1:], r_[1:])]
+
+                def qa(ax, th):
+                    v_ = np.zeros(3)
+                    v_[ax] = math.sin(th / 2)
+                    return np.r_[math.cos(th / 2), v_]
+                q = qm(qm(qa(2, 0.7), qa(1, math.pi / 2)), qa(0, 0.4)) if k == 2 else qa(2, 0.5)
             out.append(q if k % 2 == 0 else -q)
         elif lc == "Quaternion":
             out.append(np.array([a, 1.0 + k, -2.0, 0.5 * k]))
